@@ -103,8 +103,12 @@ func (dist *LaplaceDistribution) LogCdf(r Scalar, x Vector) error {
   r.Div(r, dist.c2)
 
   if x.At(0).Greater(dist.Mu) {
+    // log(1 - exp(-|x-mu|/sigma)/2)
     r.Neg(r)
-    r.Add(r, dist.c1)
+    r.Log1p(r)
+  } else {
+    // log(exp(-|x-mu|/sigma)/2)
+    r.Log(r)
   }
   return nil
 }
